@@ -160,6 +160,46 @@ def oracle_ext(res, xd, rest, endpoint, cases, multi=None):
             res.fail('C17', 'list of communities decodes to different texts', {'list': lst}, key='text:list')
 
 
+def oracle_rendered(res, rest, endpoint, r, n_rand):
+    """The first and last clauses of C17 on the decoder's own range: WHATEVER text the decoder renders for eight octets of a
+    supported kind (not only the values an RFC encoding exists for: reserved octets set, a 32-bit number in the
+    encapsulation community, ...) is accepted back by the REST interface and the octets produced render the identical text."""
+    heads = [bytes([0x00, 0x02]), bytes([0x01, 0x02]), bytes([0x02, 0x02]), bytes([0x00, 0x03]), bytes([0x01, 0x03]),
+             bytes([0x02, 0x03]), bytes([0x03, 0x0b]), bytes([0x03, 0x0c]), bytes([0x80, 0x08]), bytes([0x08, 0x00]),
+             bytes([0x80, 0x06]), bytes([0x80, 0x07]), bytes([0x80, 0x09]), bytes([0x40, 0x04]), bytes([0x06, 0x01]),
+             bytes([0x06, 0x00]), bytes([0x06, 0x02]), bytes([0x06, 0x03])]
+    edge = [b'\x00' * 6, b'\xff' * 6, b'\x00\x00\x00\x01\x00\x00', b'\x00\x01\x00\x00\x00\x00', b'\x00\x00\xff\xff\xff\xff',
+            b'\x00\x00\x00\x01\x00\x01', b'\x01\x00\x00\x00\x00\x00', b'\x80\x00\x00\x00\x00\x00']
+    for h in heads:
+        for v in edge + [bytes(r.getrandbits(8) for _ in range(6)) for _ in range(max(4, n_rand // 8))]:
+            raw = h + v
+            d = I.ext_parse(raw)
+            if 'ok' not in d or len(d['ok']) != 1 or not isinstance(d['ok'][0], str):
+                res.stats.hit('rendered_skipped_not_text')
+                continue
+            text = d['ok'][0]
+            kind = text.split(':', 1)[0]
+            if kind.endswith('-bw') or kind == 'traffic-rate':
+                # an IEEE binary32 rendered in decimal: C17 is claimed on the exactly representable rates only (see `cannot`)
+                res.stats.hit('rendered_skipped_float')
+                continue
+            res.stats.case(('or', raw.hex(), rest.kind, endpoint), sample={'rendered': raw.hex(), 'text': text})
+            res.stats.hit('rendered_' + kind)
+            out = rest.post_attr(endpoint, 16, [text])
+            if 'hex' not in out:
+                if 'as4' in out.get('why', '') or (not rest.caps['four'] and h[0] == 0x02):
+                    res.stats.hit('rendered_skipped_as4_to_as2_peer')
+                    continue
+                res.fail('C17', 'REST %s does not accept a text the decoder renders (%s)' % (endpoint, kind),
+                         {'octets': raw.hex(), 'text': text, 'rest': out, 'peer': rest.kind, 'endpoint': endpoint}, key='rendered-rejected:' + kind)
+                continue
+            d2 = I.ext_parse(bytes.fromhex(out['hex'])[3:])
+            if d2 != {'ok': [text]}:
+                res.fail('C17', 'the octets produced for a rendered %s text decode to a different text' % kind,
+                         {'octets': raw.hex(), 'text': text, 'produced': out['hex'], 'again': d2, 'peer': rest.kind, 'endpoint': endpoint},
+                         key='rendered-text:' + kind)
+
+
 def community_values(r, n_rand):
     vals = sorted(I.bgp_cons.WELL_KNOW_COMMUNITY_INT_2_STR)
     near = set()
@@ -596,6 +636,7 @@ def run(seed, tier, driver):
                     sub = cases if (endpoint == 'json_to_bin' or tier != 'quick') else cases[::5]
                     oracle_ext(res, xd, rest, endpoint, sub, mlt if endpoint == 'json_to_bin' else mlt[:3])
                     if kind == 'as4':
+                        oracle_rendered(res, rest, endpoint, r, n_rand)
                         oracle_comm(res, rest, endpoint, r, n_rand * (4 if endpoint == 'json_to_bin' else 1))
                         oracle_large(res, rest, endpoint, r, n_rand * (2 if endpoint == 'json_to_bin' else 0))
             else:
